@@ -12,6 +12,7 @@ import (
 	"fmt"
 	"os"
 	"path/filepath"
+	"runtime/debug"
 	"sort"
 	"strconv"
 	"sync"
@@ -313,7 +314,7 @@ func Check[C any](t *testing.T, name string, gen func(*rapid.T) C, exec func(C) 
 				writeReplay(jp, rec.Property, name, c, fmt.Errorf("the test process died while executing this case"))
 			}
 		}
-		res := exec(c)
+		res := guarded(exec, c)
 		if res.NonTrivial {
 			rec.NonTrivial(Fingerprint(c))
 		}
@@ -325,6 +326,17 @@ func Check[C any](t *testing.T, name string, gen func(*rapid.T) C, exec func(C) 
 			rt.Fatalf("%s/%s: %v", rec.Property, name, res.Err)
 		}
 	})
+}
+
+// guarded runs exec and turns a panic of the calling goroutine (inside the code under test or the
+// oracle) into an oracle error, so that the case is saved as a replay like any other failure.
+func guarded[C any](exec func(C) Result, c C) (res Result) {
+	defer func() {
+		if p := recover(); p != nil {
+			res.Err = fmt.Errorf("panic while executing the case: %v\n%s", p, debug.Stack())
+		}
+	}()
+	return exec(c)
 }
 
 func writeReplay(path, property, test string, c any, err error) {
@@ -380,7 +392,7 @@ func Replay[C any](t *testing.T, name string, exec func(C) Result) {
 		}
 		rec.Eval()
 		rec.Count("replayed", 1)
-		res := exec(c)
+		res := guarded(exec, c)
 		if res.NonTrivial {
 			rec.NonTrivial(Fingerprint(c))
 		}
